@@ -5,6 +5,7 @@
 import Fca.Drv.Util
 import Fca.Model.Trace
 import Fca.Spec.Trace
+import Fca.Spec.TraceMV
 open Lean
 namespace Fca.Drv.C17
 open Fca Fca.Drv Fca.Trace
@@ -81,7 +82,10 @@ def intervalOf (v : Json) : Except String (Int × Int) := do
   | _ => throw "cell must be [lo, hi]"
 
 /-- `{"op":"C17.tracemv","exts":..,"ints":[[[p,null|[lo,hi]],..],..],"children":..,"supports":..,"top":..,
-     "mono":..,"cols":[[[lo,hi],..],..],"n":..,"names":[..],"useidx":bool}` → as `C17.trace` -/
+     "mono":..,"cols":[[[lo,hi],..],..],"n":..,"names":[..],"useidx":bool
+     [,"tcols":[[[lo,hi],..],..],"tn":..]}` → as `C17.trace`, plus `"hypfull"`: the hypotheses of
+    `trace_mv_exact` (`IsMVTraceLatticeOf` w.r.t. the training context `tcols`/`tn`, `IsTracedMVCtx`) when the
+    training context is sent, `null` otherwise -/
 def traceMVH : Handler := fun j => do
   let exts ← natListList (← j.getObjVal? "exts")
   let ints ← (← arr (← j.getObjVal? "ints")).mapM descOf
@@ -97,7 +101,18 @@ def traceMVH : Handler := fun j => do
   let descr := fun g => (List.range exts.length).filter fun i => Spec.mvSatisfies K (ints.getD i []) g
   let specT := objs.map descr
   let specB := objs.map fun g => Spec.minimalOf exts (descr g)
-  -- hypotheses of `trace_any_context_partial`, and the model's extension = the satisfaction spec
+  -- hypotheses of `trace_mv_exact` / `trace_mv_bottom_minimal` / `trace_mv_keys`: the lattice is a list of genuine
+  -- pattern concepts of the training context, the traced context is well-formed over as many columns
+  let hypFull : Json ← match j.getObjVal? "tcols" with
+    | .ok tc => do
+      let tcols ← (← arr tc).mapM fun c => do (← arr c).mapM intervalOf
+      let tn ← getNat j "tn"
+      let KT : MVCtx := ⟨tcols, tn, []⟩
+      pure (Json.bool (decide (exts.length = ints.length) &&
+        decide (Spec.IsMVTraceLatticeOf KT (exts.zip ints) L) && decide (Spec.IsTracedMVCtx KT K)))
+    | .error _ => pure Json.null
+  -- hypotheses of `trace_any_context` (generic form; `Upward` is implied by `hypfull`: `upward_mv`), and the
+  -- model's extension = the satisfaction spec
   let extOk : Bool := (List.range exts.length).all fun i =>
     extOf i == objs.filter fun g => Spec.mvSatisfies K (ints.getD i []) g
   let hyp : Bool := decide (exts.length = ints.length) && decide (Spec.IsOrderData exts L) &&
@@ -105,7 +120,7 @@ def traceMVH : Handler := fun j => do
   let keys := objs.map fun g => jKey (Spec.keyOf useIdx names g)
   pure (Json.mkObj [("model", jResult model),
     ("spec", Json.mkObj [("bottom", jSets specB), ("traced", jSets specT), ("keys", Json.arr keys.toArray)]),
-    ("hyp", Json.bool hyp)])
+    ("hyp", Json.bool hyp), ("hypfull", hypFull)])
 
 def handlers : List (String × Handler) := [("C17.trace", traceH), ("C17.tracemv", traceMVH)]
 
